@@ -297,11 +297,39 @@ def scn_scaler(T, case):
     T.prove(PFX + ".scaler.linear_violation_is_max_of_lower_minus_value_value_minus_upper_zero", eq(back.linear_violation[0], T.np.maximum(T.np.maximum(llb[0] - v, v - lub[0]), zero)))
 
 
+# ------------------------------------------------------------------------------------ user-domain results (shared contract)
+def cases_user_results(tier):
+    from contracts import backtransform
+
+    return backtransform.cases(tier)
+
+
+def scn_user_results(T, case):
+    from contracts import backtransform
+
+    backtransform.scenario(T, case, "C13")
+
+
+# ------------------------------------------------------------------------------------ what the plan steps hand on (shared contract)
+def cases_steps(tier):
+    from contracts import stepcontract
+
+    return stepcontract.cases(tier)
+
+
+def scn_steps(T, case):
+    from contracts import stepcontract
+
+    stepcontract.scenario(T, case, "C13")
+
+
 SCENARIOS = [
     Scenario("create", scn_create, cases_create, {"quick": 6, "thorough": 60}),
     Scenario("transform_from_optimizer", scn_transform, cases_transform, {"quick": 10, "thorough": 100}),
     Scenario("violates_constraint", scn_violates, cases_violates, {"quick": 10, "thorough": 100}),
     Scenario("variable_scaler_end_to_end", scn_scaler, cases_scaler, {"quick": 10, "thorough": 100}),
+    Scenario("user_domain_results", scn_user_results, cases_user_results, {"quick": 3, "thorough": 20}),
+    Scenario("plan_steps_hand_over", scn_steps, cases_steps, {"quick": 1, "thorough": 2}),
 ]
 
 MANIFEST = {
